@@ -163,6 +163,7 @@ def fixed_token_readers(repo, chk, rule='C12.R3'):
     n_texts = 0
     for order in ('fwd', 'rev'):
         it = Interp(repo)
+        it.step_limit = 10 ** 10      # (bounded by the size of the tabulations, not by a step budget)
         it.set_order = order
         rd = it.load(READERS)
         tok = it.load(TOKENS)
@@ -220,6 +221,7 @@ def lexer_tabulation(repo, chk, symbol_spellings, order=None, small=False, rule=
     import itertools
     import re as _re
     it = Interp(repo)
+    it.step_limit = 10 ** 10      # (bounded by the size of the tabulations, not by a step budget)
     it.allow_generators = True
     it.set_order = order
     keywords = {sp for sp in symbol_spellings if sp[0].isalpha()}
@@ -307,6 +309,7 @@ def lexer_tabulation(repo, chk, symbol_spellings, order=None, small=False, rule=
     n = 0
     for lines in sources:
         want = reference(lines)
+        it.steps = 0
         try:
             res = lex(SC('f', list(lines)))
             toks = list(res.items)
@@ -346,6 +349,7 @@ def _scanner_tabulation(repo, chk):
     import itertools
     import re as _re
     it = Interp(repo)
+    it.step_limit = 10 ** 10      # (bounded by the size of the tabulations, not by a step budget)
     sc = it.load(SCANNER)
     SC, Scanner = sc['SourceCode'], sc['Scanner']
     alphabet = 'ab'
@@ -444,6 +448,7 @@ def run(repo, chk):
     chk.rule('C12.R5', 'span bookkeeping: mark after whitespace, advance after the reader; scanner advances col by exactly the consumed length')
     chk.rule('C12.R6', 'tokens carry no position; spans reach the output only inside comments; source is split on newlines only')
     it = Interp(repo)
+    it.step_limit = 10 ** 10      # (bounded by the size of the tabulations, not by a step budget)
     rd = it.load(READERS)
 
     # ---------------- R1 -------------------------------------------------------------
@@ -661,6 +666,7 @@ def run(repo, chk):
     # positions and free text reach the output only inside comment lines: asm.lines / Metadata.lines interpreted on
     # directive streams that differ only in a span, resp. only in metadata text (the functions are pure formatters)
     it2 = Interp(repo)
+    it2.step_limit = 10 ** 10      # (bounded by the size of the tabulations, not by a step budget)
     it2.allow_generators = True
     asm_ns = it2.load(ASM)
     lex_ns = it2.load(LEXER)
